@@ -1062,7 +1062,7 @@ func (r *siteRig) judgeCompression(q *sreq, resp *sim.Resp, dec []byte, derr err
 	if tw != nil {
 		twCE = tw.Header.Get("Content-Encoding")
 	}
-	if strings.Contains(ce, "gzip") && !offersGzip && !strings.Contains(twCE, "gzip") {
+	if strings.Contains(ce, "gzip") && !offersGzip && tw != nil && !strings.Contains(twCE, "gzip") && !strings.Contains(q.script.preCE, "gzip") {
 		c.Violate("C18/gzip-not-offered", sig, "request %s (%s): the client did not offer gzip (Accept-Encoding %q) but the response is gzip-coded", q.id, q.path, q.ae)
 	}
 	if tw == nil {
